@@ -270,6 +270,10 @@ def jobs(prop, tier):
         adopt('C05', lambda n: T or n in ('raw_UCH', 'raw_BCD2', 'raw_SLG', 'raw_BI3_2', 'raw_S3N'))
         adopt('C07', lambda n: T or n in ('parse_UCH', 'parse_FLT', 'parse_ULG', 'parse_SLG'))
         adopt('C15', lambda n: True)
+        # the protocol handler on arbitrary bus symbols from arbitrary related states (passive, own exchange, answering):
+        # the same inductive steps, counted here for their built-in memory-safety / bounded-work obligations
+        adopt('C01', lambda n: n == 'step_nn16', 'bus_')
+        adopt('C02', lambda n: T or n in ('act_sendcmd_nn16', 'act_recvres_nn16', 'act_sendresack_nn16'), 'bus_')
     if prop == 'C07':
         J += numtype_jobs('C07', 'C07_parse.cpp', T, {}, 'parse_', solver='cadical', timeout=900 if T else 250)
     if prop == 'C12':
@@ -289,21 +293,21 @@ META = {
    assumptions=COMMON_ASSUME + ['induction: relation RA of harness/C02_step.cpp together with the passive relation of rel_bus.h is an invariant (entry: arbitration phase; step: act_* jobs)', 'sender monitor ref::Sender in harness/ref_bus.h states the C02 wire rules'],
  ),
  'C03': dict(
-   level_text='Bounded model checking, inductive, of the entitlement to write on the states with an own exchange in progress (same step harness as C02, assertion group 3): from every such state one handler step writes at most one symbol, only as the echo-verified continuation the sender monitor expects (never while the arbitration echo is still awaited, never in a receiving phase), and after an echo mismatch, a read timeout or device error, or a received SYN the successor state is a passive, non-sending state (silent until the next SYN).',
-   level_note=BUS_NOTE + ' This decides clauses (b) and "silent after echo mismatch / receive error" of the statement on the plain device. Clause (a) (arming only with expired lock counter and a pending request), clause (d) (AUTO-SYN) and read-only silence on passive states with queued requests are decided by the passive step variant where registered (pas_* jobs); clause (c) (answering) belongs to the C15 harness. The stronger reading "skip one more SYN after a lost arbitration" is reported as observation OBS-C03-lockcount-dead (DESIGN section 3), not asserted.',
+   level_text='Bounded model checking, inductive, of the entitlement to write, over a relation that covers every state of the bus thread: passive states with waiting requests and any device arbitration state (C03_passive.cpp) and states with an own exchange in progress (C02_step.cpp, assertion group 3). Passive side: see level_note. Active side: from every such state one handler step writes at most one symbol, only as the echo-verified continuation the sender monitor expects (never while the arbitration echo is still awaited, never in a receiving phase), and after an echo mismatch, a read timeout or device error, or a received SYN the successor state is a passive, non-sending state (silent until the next SYN).',
+   level_note=BUS_NOTE + ' This decides clauses (b) and "silent after echo mismatch / receive error" of the statement on the plain device. Clause (a), clause (d) (AUTO-SYN) and read-only silence are decided by the passive step harness C03_passive.cpp (pas_* jobs: every passive handler state x 0..2 waiting requests x device idle / armed / address written): an address is written only directly after a lone SYN, only the head request\'s source, only with a pending request and not read-only; the device is armed only with expired lock counter, pending request, no current request, in skip/ready; AUTO-SYN only when configured, after a timed-out read of at least the generation interval in noSignal/skip. (a) is asserted at ARMING time: a lock counter raised after arming (SYN with more data buffered) does not disarm the device -- observation, not asserted. The quick tier runs the five (request, device, state-group) combinations in which arming, address write and echo check happen; the thorough tier all 40. Clause (c) (answering) is decided by the C15 answer harness. The stronger reading "skip one more SYN after a lost arbitration" is reported as observation OBS-C03-lockcount-dead (DESIGN section 3), not asserted.',
    outside_claim='EnhancedDevice; answer mode writes (C15); wall-clock AUTO-SYN interval measurement',
    assumptions=COMMON_ASSUME + ['same relations as C02'],
  ),
  'C04': dict(
-   level_text='Bounded model checking, inductive, of request bookkeeping (same step harness as C02, assertion group 4, with one more request waiting in the queue and one in the finished queue): after one handler step from every state with an own exchange in progress or an arbitration pending, under every read outcome, the request is in exactly one place (current, next queue once, finished queue once, deleted once); it is completed at most once (a second completion only as NO_SIGNAL drain of the new life of a request that asked for a restart in the same step), exactly when the exchange ends; a lost arbitration re-queues it without notification while bus-lost retries remain and completes it with ERR_BUS_LOST otherwise; restart re-queues, self-deleting requests are deleted once, waited requests reach the finished queue once; loss of signal completes every queued request once with NO_SIGNAL; bystander requests are untouched. Use after delete is covered by CBMC pointer checks on the deleted object.',
+   level_text='Bounded model checking, inductive, of request bookkeeping (step harness of C02, assertion group 4, with one more request waiting in the queue and one in the finished queue; plus the passive step harness C03_passive.cpp, assertion group 4, for requests that wait while ebusd receives, arbitrates, loses arbitration or loses the signal): after one handler step from every state with an own exchange in progress or an arbitration pending, under every read outcome, the request is in exactly one place (current, next queue once, finished queue once, deleted once); it is completed at most once (a second completion only as NO_SIGNAL drain of the new life of a request that asked for a restart in the same step), exactly when the exchange ends; a lost arbitration re-queues it without notification while bus-lost retries remain and completes it with ERR_BUS_LOST otherwise; restart re-queues, self-deleting requests are deleted once, waited requests reach the finished queue once; loss of signal completes every queued request once with NO_SIGNAL; bystander requests are untouched. Use after delete is covered by CBMC pointer checks on the deleted object.',
    level_note=BUS_NOTE + ' Sequential claim about the bus thread only: the interleaving clause of the statement (client threads in addRequest/sendAndWait against the bus thread on Queue<T>) is NOT decided -- CBMC concurrency on the translated std::list/pthread code was not attempted within this budget. PollRequest/ScanRequest::notify bodies are replaced by a request mock whose restart answer is arbitrary.',
    outside_claim='thread schedules (client threads vs bus thread), Queue<T> under concurrency, device close/reopen loop of run(), PollRequest/ScanRequest/ActiveBusRequest notify bodies, liveness ("eventually") beyond one step',
    assumptions=COMMON_ASSUME + ['same relations as C02'],
  ),
  'C20': dict(
-   level_text='Bounded model checking of memory safety and bounded work on the kernels that consume untrusted bytes: adapter frames incl. arbitrary INFO transfers into the 17-byte info buffer (real notifyInfoRetrieved), chunked adapter streams, escaped hex parsing, numeric field decode/encode at arbitrary offsets, numeric text parsing for every libc outcome, answer-key construction. Obligations are CBMC built-in checks (array bounds, pointer validity incl. freed objects, division by zero, signed overflow, uncaught-exception model, unwinding assertions) plus shift/conversion checks confirmed by native UBSan replay.',
-   level_note='Covers only the listed kernels. NOT covered (beyond this encoding, see DESIGN section 8): the protocol handler state machine on arbitrary bus traffic, client command lines and HTTP requests through MainLoop, CSV/definition loaders, leak freedom of request objects. Those interfaces are fuzzing territory; no claim is made for them.',
-   outside_claim='DirectProtocolHandler on arbitrary traffic, MainLoop command interpreter, CSV loaders, request-object lifetime, FileTransport',
+   level_text='Bounded model checking of memory safety and bounded work on the kernels that consume untrusted bytes: adapter frames incl. arbitrary INFO transfers into the 17-byte info buffer (real notifyInfoRetrieved), chunked adapter streams, escaped hex parsing, numeric field decode/encode at arbitrary offsets, numeric text parsing for every libc outcome, answer-key construction, and the protocol handler state machine (one step from every related state on an arbitrary symbol or fault). Obligations are CBMC built-in checks (array bounds, pointer validity incl. freed objects, division by zero, signed overflow, uncaught-exception model, unwinding assertions) plus shift/conversion checks confirmed by native UBSan replay.',
+   level_note='Covers the listed kernels and, since the handler became reachable (DESIGN 10.1), one handler step from every related passive / own-exchange / answering state on an arbitrary symbol, timeout or device error (the inductive steps of C01, C02, C15, here for their built-in safety obligations incl. use of deleted request objects). NOT covered (beyond this encoding, see DESIGN section 8): client command lines and HTTP requests through MainLoop, CSV/definition loaders, leak freedom of request objects. Those interfaces are fuzzing territory; no claim is made for them.',
+   outside_claim='MainLoop command interpreter and HTTP requests, CSV/definition loaders, define/decode/encode commands, leak freedom at handler destruction, EnhancedDevice composed with the handler',
    assumptions=COMMON_ASSUME,
  ),
  'C17': dict(
@@ -368,10 +372,10 @@ META = {
    assumptions=COMMON_ASSUME,
  ),
  'C15': dict(
-   level_text='Bounded model checking of the real answer-key construction (DirectProtocolHandler::createAnswerKey, the key setAnswer registers under and getAnswer looks up): two registrations map to the same key iff they agree on source, destination, PB, SB, ID length and ID bytes, the any-source key is the key without the source bits, and every shift amount is in range for ID lengths 0..4; callers pass ID lengths <= 4 only (setAnswer rejects longer IDs; getAnswer clamps since fix 281d14a, before which NN > 4 drove a negative shift -- KF-C15-NN-GT4-SHIFT).',
-   level_note='Only the key kernel is decided. The longest-prefix search loop of getAnswer (std::map inside the 1.3 KB handler object) and the on-wire ACK/response exchange are outside: the encoding of the full handler does not finish within the cap (DESIGN section 8).',
-   outside_claim='getAnswer search loop and MM tail-length rule, the on-wire answer exchange (ACK, response bytes, NAK repetition), CLI parsing of --answer',
-   assumptions=COMMON_ASSUME,
+   level_text='Bounded model checking of answer mode in two parts. (1) On-wire exchange, inductive: the real DirectProtocolHandler::handleSend/handleReceive/setState/messageCompleted on the real PlainDevice are run for ONE step from EVERY state in which ebusd is answering (acknowledge due; sending response bytes; sending the response CRC; waiting for the master\'s acknowledge -- one job per state) that is related (relation RN in harness/C15_answer.cpp) to a state of an independent answer monitor (ref::Answerer), every read outcome chosen by the solver: the step writes exactly ACK, then NN, the escaped data and the CRC of the escaped response, nothing while waiting; repeats the response exactly once after a NAK; reports md_answer with the received command and the registered answer exactly when the exchange completed; is silent after echo mismatch, fault or SYN; ends in RN or the passive relation of C01. Telegram and answer NN <= 16. (2) Key kernel: the real createAnswerKey maps two registrations to the same key iff they agree on source, destination, PB, SB, ID length and ID bytes; the any-source key is the key without the source bits; shift amounts in range for ID lengths 0..4.',
+   level_note=BUS_NOTE + ' NOT decided: the entry into answering, i.e. getAnswer\'s longest-prefix search in the std::map (real setAnswer + getAnswer with ONE registration still needs > 9 GB and gives no verdict, DESIGN 10.5) -- so "answers iff a registered answer matches" and "longest matching ID prefix" rest on the key kernel only, and a change inside getAnswer (seed C15-anysource-mask-0f) is missed. The answering states are entered only from bs_recvCmdCrc with a CRC-correct telegram (m_crcValid), which is part of RN. NAK of a CRC-wrong telegram addressed to ebusd is unreachable in this tree (observation, DESIGN section 3).',
+   outside_claim='getAnswer search loop (which registered answer is chosen, MM tail-length rule), CLI parsing of --answer, EnhancedDevice, NN > 16',
+   assumptions=COMMON_ASSUME + ['induction: relation RN of harness/C15_answer.cpp together with the passive relation of rel_bus.h', 'answer monitor ref::Answerer in harness/ref_bus.h states the C15 wire rules'],
  ),
  'C01': dict(
    level_text='Bounded model checking, inductive: the real DirectProtocolHandler::handleSend/handleReceive on the real PlainDevice is run for ONE step from EVERY passive handler state that is related (relation R in harness/C01_step.cpp) to a state of an independent eBUS telegram recogniser written from the protocol rules, with every transport outcome (timeout, read error, chunk of 1..2 arbitrary bytes, bytes already buffered) and every clock reading chosen by the solver; asserted: the step reports exactly the telegrams the recogniser completes (count, direction, source, destination, command, unescaped data, slave data) and ends in R again. R holds in the real initial state (step_init). By induction the reports agree for byte streams of any length; the bound is the telegram size (NN <= 16 data bytes per part, the eBUS maximum) and one step. A K-step run from the initial state (run_plain, thorough) cross-checks the relation against real histories.',
